@@ -109,6 +109,7 @@ class Ctx:
 		self.counters = Counter()
 		self.evaluations = 0
 		self.distinct = set()
+		self.distinct_extra = 0  # cases distinct by construction (enumerations), counted not hashed
 		self.samples = {}
 		self.sample_cap = 3
 		self.violations = []   # dicts: sub, mechanism, witness, known
@@ -196,6 +197,7 @@ class Ctx:
 			"counters": dict(self.counters),
 			"evaluations": self.evaluations,
 			"distinct": sorted(self.distinct),
+			"distinct_extra": self.distinct_extra,
 			"samples": self.samples,
 			"violations": self.violations,
 			"inconclusive": self.inconclusive,
@@ -210,6 +212,7 @@ class Ctx:
 		self.counters.update(p["counters"])
 		self.evaluations += p["evaluations"]
 		self.distinct.update(p["distinct"])
+		self.distinct_extra += p.get("distinct_extra", 0)
 		for k, lst in p["samples"].items():
 			mine = self.samples.setdefault(k, [])
 			for s in lst:
@@ -301,7 +304,7 @@ class Ctx:
 		verdict = {0: "held on what was observed", 1: "VIOLATED", 2: "inconclusive"}[code]
 		print("%s [%s seed=%d] %s: %d evaluations, %d distinct non-trivial, %.1fs"
 			% (self.prop, self.tier, self.seed, verdict, self.evaluations,
-			   len(self.distinct), wall))
+			   len(self.distinct) + self.distinct_extra, wall))
 		return code
 
 	def write_evidence(self, n_viol):
@@ -311,7 +314,7 @@ class Ctx:
 				samples.append({"kind": kind, "case": s})
 		cov = {
 			"evaluations": self.evaluations,
-			"distinct_nontrivial": len(self.distinct),
+			"distinct_nontrivial": len(self.distinct) + self.distinct_extra,
 			"rule": self.rule,
 			"samples": samples,
 			"observed": {k: v for k, v in sorted(self.counters.items())},
@@ -369,6 +372,7 @@ def validate_evidence(ev):
 def run_sharded(ctx, nshards, timeout):
 	os.makedirs(os.path.join(VERIF, "build"), exist_ok = True)
 	procs = []
+	os.environ["VERIF_PARENT_PID"] = str(os.getpid())
 	for i in range(nshards):
 		out = os.path.join(VERIF, "build", "partial-%s-%d-%d.json" % (ctx.prop, os.getpid(), i))
 		cmd = [PY, os.path.join(VERIF, "vf", "main.py"), ctx.prop, "--tier", ctx.tier,
